@@ -961,6 +961,9 @@ func replayFile(path string) int {
 		return 2
 	}
 	fmt.Printf("native verdict: %s %q\n", nr.verdict, nr.detail)
+	if os.Getenv("GOBMC_DEBUG") != "" {
+		fmt.Println(nr.raw)
+	}
 	for _, o := range nr.observed {
 		fmt.Println("  observed", o)
 	}
